@@ -115,6 +115,19 @@ CHECKS = {
              'all 5913 pivot vectors for N <= 7 are enumerated every run (piv2mat = replayed row swaps, piv2det = permutation sign) and lu_factor outputs of generated matrices satisfy P L U = A and det = sign*prod(diag U).',
         note='bit-wise comparison (signed zeros handled where the arithmetic changes them); exhaustive only for the pivot enumeration (reported in evidence), the rest is sampled',
         ref='DESIGN.md section 4, C17; notes/C17.md'),
+    'C15': dict(
+        technique='exhaustive enumeration (within a bound) + property-based testing (Hypothesis): exact integer/rational check of Gamma V = I against an independent enumeration of all monomials; generated polynomials/ridge functions through init_tensor/extract_tensor vs exact partials',
+        text='Every (N, d) with C(N+d-1,d) <= bound (quick 40: 39 pairs, thorough 130: 52 pairs, d <= 8) is executed every run: the multi-index list must equal the independent enumeration '
+             'of all compositions (no duplicates, right count) and sum_j Gamma[i,j] ray_j^alpha = delta(i,alpha) is decided in exact rational arithmetic for all (i, alpha); generated polynomials '
+             'and ridge functions pushed through init_tensor/extract_tensor are compared with exact partial derivatives.',
+        note='exhaustive within the stated bound on (N,d) (EXHAUSTIVE=True in evidence), sampled beyond; d capped at 8 (float64 conditioning of formula 13.13); residual bound 1e-9 * sum |Gamma||V|',
+        ref='DESIGN.md section 4, C15; notes/C15.md'),
+    'C16': dict(
+        technique='property-based testing (Hypothesis): one bucket per exported n-th derivative function vs mpmath numerical differentiation at 45 digits; exact rules for the piecewise constant/linear functions; order 0 vs NumPy/SciPy bit-wise',
+        text='For every name exported by algopy.nthderiv (enumerated at run time), orders n up to 10 (thorough 16 where the reference stays accurate), points of the declared domain with special points boosted, '
+             'scalar/array arguments with and without out=: the value equals mpmath.diff of the function; order 0 equals the NumPy/SciPy function.',
+        note='trusts mpmath; tolerance 1e-9 * max(1, |f^(n)|, |x f^(n+1)|) (hyperu 1e-7); n caps documented in notes/C16.md',
+        ref='DESIGN.md section 4, C16; notes/C16.md'),
 }
 
 NOT_BUILT = 'check not built yet in this session (planned, see DESIGN.md section 4)'
